@@ -207,6 +207,14 @@ pub fn run(p: &Params, rep: &mut Report) {
         let n = if p.thorough { 40_000 } else { 15_000 };
         super::deep::probe(rep, "auto-chain", n, &super::deep::expect_auto_chain(n), "minimize", p.seed);
     }
+    if p.shard % 4 == 2 {
+        // alphabets of more than 2^10 (2^12 in the thorough tier) classes where only a word that mixes letters
+        // from far-apart parts of the alphabet separates two states
+        let fillers = if p.thorough { 4200 } else { 1100 + 100 * (p.seed as u32 % 5) };
+        let spec = far_letters_spec(2 + (p.shard as u32 / 4), fillers);
+        rep.inc("far_letter_automata");
+        check_spec(rep, &spec, p.seed);
+    }
     let mut rng = p.rng(4);
     let n = p.size(8000, 80_000);
     for _ in 0..n {
